@@ -28,6 +28,12 @@ Theorem C14_headers_before_handshake_desync : forall s f c fi a, n_ready s = fal
 Proof. exact headers_before_handshake_desync. Qed.
 Print Assumptions C14_headers_before_handshake_desync.
 
+(* the primitive behind "no handler" and "discard the remainder": DiscardInput drops exactly the
+   number of bytes it is asked to, whatever the chunk size (regenerated from messages.go) *)
+Theorem C14_discard_exact : forall n, discard_input (Z.to_N discard_chunk) n = n.
+Proof. intros n. apply discard_input_exact. reflexivity. Qed.
+Print Assumptions C14_discard_exact.
+
 (* a ready node is stopped by a message only if the message violates the protocol: a second
    protoconf, a pong with the wrong nonce, or headers its repository refuses.  In particular no
    number of repeated version/verack, unrequested blocks or transactions, unknown commands or
